@@ -24,6 +24,8 @@ RULES = {
     "middle and end of a data string and doubled, alone and combined pairwise",
     "asgi": "the same events sent by baize.asgi.SendEventResponse through the ASGI gateway on a virtual-time loop, with producer "
     "delays around the ping interval so that pings are interleaved; headers checked; non-trivial as for block, or a ping occurred",
+    "wsgi_slow": "enumerated: 2..8 ready events through baize.wsgi.SendEventResponse with a 20 ms ping interval while the server stalls for 150-250 ms "
+    "(many ping intervals) after taking the first or second item: every yielded event must still arrive once, in order",
     "wsgi": "the same through baize.wsgi.SendEventResponse and the WSGI gateway (real relay thread; a labelled minority of cases "
     "sleeps past a 20 ms ping interval)",
 }
@@ -214,7 +216,11 @@ def oracle_wsgi(case) -> Result:
             yield ev
 
     resp = bwsgi.SendEventResponse(producer(), ping_interval=ping, charset=charset)
-    run = gw.run_wsgi(resp, gw.make_environ(gw.areq()))
+    stalls = {int(k): v for k, v in (case.get("stalls") or {}).items()}
+    run = gw.run_wsgi(resp, gw.make_environ(gw.areq()), stall_after=stalls or None)
+    if stalls:
+        r.label("slow-client")
+        r.nontrivial = True
     if run.exc is not None:
         r.fail(f"C19:wsgi:raised:{type(run.exc).__name__}", f"{case!r}: {run.exc!r}")
         return r
@@ -229,7 +235,7 @@ def oracle_wsgi(case) -> Result:
     return r
 
 
-SUBS = {"block": oracle_block, "sep": oracle_block, "asgi": oracle_asgi, "wsgi": oracle_wsgi, "wsgi_ping": oracle_wsgi}
+SUBS = {"block": oracle_block, "sep": oracle_block, "asgi": oracle_asgi, "wsgi": oracle_wsgi, "wsgi_ping": oracle_wsgi, "wsgi_slow": oracle_wsgi}
 
 # ------------------------------------------------------------------------------------------
 
@@ -305,6 +311,15 @@ def wsgi_ping_case(draw):
     return {"events": events, "charset": charset, "delays": delays, "ping": 0.02}
 
 
+def slow_client_cases():
+    """The producer is ahead of a client that stalls for many ping intervals: nothing may be lost."""
+    for n in (2, 4, 8):
+        for stall_at in (1, 2):
+            for charset in ("utf-8",):
+                yield {"events": [{"id": str(i), "data": f"event-{i}"} for i in range(n)], "charset": charset, "delays": [0] * n, "ping": 0.02, "stalls": {str(stall_at): 0.25}}
+    yield {"events": [{"data": f"e{i}"} for i in range(6)], "charset": "utf-8", "delays": [0, 0, 0.05, 0, 0, 0], "ping": 0.02, "stalls": {"1": 0.15, "3": 0.15}}
+
+
 def flow_fixed_cases():
     for side in ("asgi", "wsgi"):
         yield side, {"events": [{}, {"data": "after-empty"}], "charset": "utf-8", "delays": [0, 0], "ping": 30}
@@ -314,6 +329,8 @@ def flow_fixed_cases():
 
 def run(rec, only=None):
     quick = rec.tier == "quick"
+    core.drive_cases(rec, "wsgi_slow", slow_client_cases(), oracle_wsgi)
+    rec.exhaustive["wsgi_slow"] = True
     for side, case in flow_fixed_cases():
         core.drive_cases(rec, side, [case], oracle_asgi if side == "asgi" else oracle_wsgi)
     core.drive_cases(rec, "sep", sep_cases(), oracle_block)
